@@ -1,2 +1,3 @@
 class thing:
-    pass
+    class Point:
+        pass
